@@ -45,6 +45,11 @@ func parseWhereClause(l *lexer) (idempotent bool, t token, err error) {
 // | '(' relation ')'
 //
 func parseRelation(l *lexer, t token) (idempotent bool, err error) {
+	if err = l.enter(); err != nil {
+		return false, err
+	}
+	defer l.leave()
+
 	switch t {
 	case tkIdentifier:
 		switch t = l.next(); t {
